@@ -7,3 +7,6 @@ import MakoModel.Props.C09
 #print axioms MakoModel.C09.rejected_or_contained
 #print axioms MakoModel.C09.normpath_shape
 #print axioms MakoModel.C09.module_path_contained
+#print axioms MakoModel.C09.history_contained
+#print axioms MakoModel.C09.has_agrees_get
+#print axioms MakoModel.C09.has_true_contained
